@@ -101,7 +101,7 @@ def show(t, depth=0):
         return "coll@%s" % site_str(t[1])
     if k == "closure":
         return "closure:%s" % (t[1],)
-    if k == "loopout":
+    if k == "loopvar":
         return "loopout(%s)" % t[2]
     return "%s(%s)" % (k, ", ".join(show(a, d) if isinstance(a, tuple) else repr(a) for a in t[1:]))
 
